@@ -1036,7 +1036,22 @@ def assumptions_text():
 
 
 def thorough_extras(prop, units, undecided, violations):
-    return {}
+    """mutation self-test: every registered seeded fault of the units serving this property must be rejected"""
+    res = []
+    for u in units:
+        try:
+            for r in run_mutants(u):
+                res.append(dict(r, unit=u))
+        except Undecided as e:
+            undecided.append(f"{u}: mutation self-test: {e}")
+    surv = [r for r in res if r["outcome"] == "survived"]
+    und = [r for r in res if r["outcome"] == "undecided"]
+    for r in surv:
+        undecided.append(f"{r['unit']}: mutation self-test: a registered seeded fault is NOT rejected by the contracts: {r['desc']}")
+    return {"mutation_self_test": {"mutants": len(res), "killed": len([r for r in res if r["outcome"] == "killed"]),
+                                   "survived": [r["desc"] for r in surv], "undecided": [r["desc"] + " :: " + r["detail"][:120] for r in und],
+                                   "rule": "textual faults from spec/mutants/<unit>.json applied to a COPY of the source file, then extracted and verified like the real code; never applied to /repo",
+                                   "samples": [{"unit": r["unit"], "fault": r["desc"], "rejected_by": r["detail"]} for r in res[:8]]}}
 
 
 def find_witness(prop, v):
